@@ -7,6 +7,7 @@
 import Edn.Spec.StringLit
 import Edn.Proofs.Scan
 import Edn.Model.Reader
+import Edn.Proofs.StrAux
 
 namespace Edn.Proofs
 open Edn.Model Edn.Spec
@@ -14,22 +15,54 @@ open Edn.Model Edn.Spec
 /-- a spelled content never contains an unescaped quote: the scan runs through it -/
 theorem findQuote_content (cfg : Cfg) (sp dn : Bytes) (h : StrContent cfg sp dn) (bs : Bool) (rest : Bytes) :
     findQuoteScalar bs (sp ++ 0x22 :: rest) = some (0x22 :: rest, bs || sp.contains 0x5C) := by
-  sorry
+  induction h generalizing bs with
+  | nil => simp [findQuoteScalar_cons]
+  | cons hu _ ih =>
+    rw [List.append_assoc, findQuote_unit cfg _ _ hu, ih, List.contains_append, Bool.or_assoc]
 
 /-- … and without a closing quote the literal is unterminated -/
 theorem findQuote_unterminated (cfg : Cfg) (sp dn : Bytes) (h : StrContent cfg sp dn) (bs : Bool) :
     findQuoteScalar bs sp = none := by
-  sorry
+  induction h generalizing bs with
+  | nil => rfl
+  | cons hu _ ih => rw [findQuote_unit cfg _ _ hu, ih]
+
+/-- the decoder runs through a spelled content, one fuel step per unit -/
+theorem decode_content_append (cfg : Cfg) (sp dn : Bytes) (h : StrContent cfg sp dn) :
+    ∃ k, k ≤ sp.length ∧ ∀ (f : Nat) (t : Bytes),
+      decodeString cfg (f + k) (sp ++ t) = (decodeString cfg f t).map (dn ++ ·) := by
+  induction h with
+  | nil => exact ⟨0, Nat.le_refl _, fun f t => by simp⟩
+  | cons hu _ ih =>
+    obtain ⟨k, hk, hdec⟩ := ih
+    refine ⟨k + 1, ?_, ?_⟩
+    · have := unit_length_pos cfg _ _ hu
+      simp only [List.length_append]; omega
+    · intro f t
+      rw [List.append_assoc, ← Nat.add_assoc, decode_unit cfg _ _ hu, hdec, Option.map_map]
+      congr 1
+      funext x
+      simp
+
+theorem slice_append_left (a b : Bytes) : slice (a ++ b) b = a := by
+  simp [slice]
 
 /-- decoding a spelled content yields exactly the bytes it denotes -/
 theorem decode_content (cfg : Cfg) (sp dn : Bytes) (h : StrContent cfg sp dn) (f : Nat) (hf : sp.length < f) :
     decodeString cfg f sp = some dn := by
-  sorry
+  obtain ⟨k, hk, hdec⟩ := decode_content_append cfg sp dn h
+  obtain ⟨g, rfl⟩ : ∃ g, f = (g + 1) + k := ⟨f - k - 1, by omega⟩
+  have := hdec (g + 1) []
+  simpa [decodeString] using this
 
 /-- a content without backslash is returned as it is (zero-copy path) -/
 theorem no_backslash_plain (cfg : Cfg) (sp dn : Bytes) (h : StrContent cfg sp dn) (hb : sp.contains 0x5C = false) :
     dn = sp := by
-  sorry
+  induction h with
+  | nil => rfl
+  | cons hu _ ih =>
+    rw [List.contains_append, Bool.or_eq_false_iff] at hb
+    rw [unit_no_backslash cfg _ _ hu hb.1, ih hb.2]
 
 /-- reading a literal: the value's range covers the quotes, its bytes (through
     `edn_string_get`) are the denoted bytes with their exact length, and the rest of the
@@ -40,12 +73,37 @@ theorem readString_literal (ctx : Ctx) (sp dn rest : Bytes) (cl : List Call)
     ∃ esc, readString ctx { rest := 0x22 :: (sp ++ 0x22 :: rest), calls := cl } =
         .ok (.str (mkHdr (sp.length + 2 + rest.length) rest.length) sp esc) { rest := rest, calls := cl } ∧
       stringGet ctx.cfg sp esc = some dn := by
-  sorry
+  refine ⟨sp.contains 0x5C, ?_, ?_⟩
+  · have hcond : (ctx.cfg.exp && startsWith (0x22 :: (sp ++ 0x22 :: rest)) [0x22, 0x22, 0x22, 0x0A]) = false := by
+      cases hc : (ctx.cfg.exp && startsWith (0x22 :: (sp ++ 0x22 :: rest)) [0x22, 0x22, 0x22, 0x0A])
+      · rfl
+      · exfalso
+        rw [Bool.and_eq_true] at hc
+        refine hnb ⟨hc.1, ?_⟩
+        have hp := List.isPrefixOf_iff_prefix.mp hc.2
+        obtain ⟨t, ht⟩ := hp
+        exact ⟨t, ht.symm⟩
+    unfold readString
+    simp only [hcond, List.tail_cons, findQuote_eq, findQuote_content ctx.cfg sp dn h false rest,
+      Bool.false_or, slice_append_left]
+    simp only [Bool.false_eq_true, if_false, Ctx.pos, List.length_cons, List.length_append]
+    have : sp.length + (rest.length + 1) + 1 = sp.length + 2 + rest.length := by omega
+    rw [this]
+  · unfold stringGet
+    cases hb : sp.contains 0x5C
+    · simp [no_backslash_plain ctx.cfg sp dn h hb]
+    · simpa using decode_content ctx.cfg sp dn h (sp.length + 1) (by omega)
 
 /-- an escape the build does not define is reported when the string is accessed -/
 theorem undefined_escape_is_error (cfg : Cfg) (c : UInt8) (r : Bytes)
     (hc : decodeEscape cfg (c :: r) = none) (pre dn : Bytes) (h : StrContent cfg pre dn) :
     stringGet cfg (pre ++ 0x5C :: c :: r) true = none := by
-  sorry
+  obtain ⟨k, hk, hdec⟩ := decode_content_append cfg pre dn h
+  unfold stringGet
+  obtain ⟨g, hg⟩ : ∃ g, (pre ++ 0x5C :: c :: r).length + 1 = (g + 1) + k :=
+    ⟨(pre ++ 0x5C :: c :: r).length - k, by simp; omega⟩
+  simp only [Bool.not_true, Bool.false_eq_true, if_false]
+  rw [hg, hdec]
+  simp [decodeString, hc]
 
 end Edn.Proofs
